@@ -11,7 +11,7 @@ def run(ctx):
     editcheck.run_histories(ctx, ORACLES, 4000 if quick else 100000)
     editcheck.run_histories(ctx, ORACLES, 60 if quick else 3000, tag="big", fft="big")
     editcheck.run_workloads(ctx, ORACLES, 160 if quick else 5000)
-    ctx.cov["rule"] = ("seeded edit histories in the samplers' grammar with persistence faults; after every applied operation the live tree "
+    ctx.cov["rule"] = ("seeded edit histories in the samplers' grammar (1-8 and, in a separate batch, 12-60 data points) with persistence faults; after every applied operation the live tree "
                        "(and its un-restored twin) must satisfy the well-formedness predicate (one root, in-degree 1, reachability, unique "
                        "names, inverse index maps, payload data = data lists, disjoint cover of exactly the inserted data, read API agrees "
                        "with the graph) and map to the reference forest; plus real sampler chains (burn-in SMC, particle Gibbs, subtree, "
